@@ -82,10 +82,11 @@ def run(prop, tier, *, mc_module, mc_cfg, driver, trace_module, trace_spec="TSpe
     with open(cp, "w") as f:
         for c in cases:
             f.write(json.dumps(c) + "\n")
-    C.log("[%s] model %s: %d states generated, %d distinct, depth %d; %d cases" % (prop, mc_module, r.generated, r.distinct, r.depth, len(cases)))
+    C.log("[%s] model %s: %d states generated, %d distinct, depth %d; %d cases (%.1fs)" % (prop, mc_module, r.generated, r.distinct, r.depth, len(cases), time.time() - t0))
+    t1 = time.time()
     trace = os.path.join(wd, "trace.ndjson")
     summ = C.run_harness(binary, driver, cp, trace, os.path.join(wd, "summary.json"), tier, extra=harness_extra, env=harness_env)
-    C.log("[%s] harness %s: %d runs, %d events, %s" % (prop, driver, summ["runs"], summ["events"], summ["counts"]))
+    C.log("[%s] harness %s: %d runs, %d events, %s (%.1fs)" % (prop, driver, summ["runs"], summ["events"], summ["counts"], time.time() - t1))
     notes = list(summ.get("notes") or [])
     if post_harness:
         post_harness(wd, summ)
